@@ -190,7 +190,7 @@ Cases ==
             n \in 0..((NBits - 1) \div 2), o \in BOOLEAN,
             x \in (IF Tier = "quick" THEN {0, 6, P - 1, 21} ELSE BoundaryX),
             \* (BoundaryX x BoundaryX over F_97 is > 6*10^6 states: measured, not finished in 50 min)
-            y \in (IF Tier = "quick" THEN {5, P - 1} ELSE {5, 22, P - 1})}
+            y \in (IF Tier = "quick" THEN {5, P - 1} ELSE {5, P - 1})}
     [] Family = "arith" ->
          {NX("boolean", 0, x) : x \in AllX}
          \cup {[Cs("select") EXCEPT !.x = x, !.y = y, !.z = z] : x \in {0, 1, 2, P - 1}, y \in {0, 5, P - 1}, z \in {0, 9}}
